@@ -15,10 +15,11 @@ import (
 	"fmt"
 	"math/rand"
 	"os"
-	"runtime/pprof"
 	"sort"
 	"strings"
 	"time"
+
+	insaneJSON "github.com/ozontech/insane-json"
 
 	"verifharness/core"
 )
@@ -176,7 +177,7 @@ func judgeDoif(c *core.Ctx, job *pipeJob, res *pipeBatchResult) {
 			}
 			same := got[0] == got[1] && got[1] == got[2] && got[2] == got[3]
 			if !same {
-				violate(c, "do_if in pipeline nondeterministic: same rule and event, different decision after reordering values/operands/earlier events",
+				violate(c, nondetSignature("do_if in pipeline nondeterministic: same rule and event, different decision after reordering values/operands/earlier events", r, ev),
 					fmt.Sprintf("do_if %s on event %s: decisions %q", cfgJSON, core.Trunc(di.evJSON[ei], 300), string(got[:])),
 					map[string]any{"rule": cfgJSON, "event": di.evJSON[ei], "decisions": string(got[:]), "documented": want.String()})
 			}
@@ -331,6 +332,8 @@ func exampleJobs(c *core.Ctx) []*pipeJob {
 			}
 		}
 	}
+	directedStateDependence(c, st)
+
 	diJob := &pipeJob{kind: "doif", di: di}
 	diJob.batch = pipeBatch{ID: "examples-doif", Parallel: true, Events: di.evJSON}
 	for i := len(di.events) - 1; i >= 0; i-- {
@@ -368,6 +371,49 @@ func exampleJobs(c *core.Ctx) []*pipeJob {
 	return []*pipeJob{mfJob, diJob}
 }
 
+// directedStateDependence: the decision of rule A on one decoded event must
+// not change because another rule B has been evaluated on it in between
+// (in a pipeline B is the selector of an earlier action). Fixed scenarios, so
+// that the observation does not depend on the seed.
+func directedStateDependence(c *core.Ctx, st *stats) {
+	type scen struct{ a, b, event string }
+	scens := []scen{
+		{`{"op":"byte_len_cmp","field":"ts","cmp_op":"gt","value":11}`, `{"op":"contains","field":"ts.n","values":["te"]}`, `{"ts":{"n":"\"te"}}`},
+		{`{"op":"byte_len_cmp","field":"ts","cmp_op":"eq","value":10}`, `{"op":"equal","field":"ts.0","values":["x"]}`, `{"ts":["a\nb",1]}`},
+		{`{"op":"byte_len_cmp","field":"msg","cmp_op":"eq","value":4}`, `{"op":"prefix","field":"msg","values":["a"]}`, `{"msg":"a\nbc"}`},
+		{`{"op":"equal","field":"msg","values":["a\nbc"]}`, `{"op":"byte_len_cmp","field":"msg","cmp_op":"eq","value":4}`, `{"msg":"a\nbc"}`},
+		{`{"op":"int_val_cmp","field":"n","cmp_op":"eq","value":12}`, `{"op":"suffix","field":"n","values":["2"]}`, `{"n":"\u00312"}`},
+		{`{"op":"check_type","field":"msg","values":["str"]}`, `{"op":"regex","field":"msg","values":["b"]}`, `{"msg":"a\tb"}`},
+	}
+	for _, sc := range scens {
+		ra, rb := ruleFromJSON(sc.a), ruleFromJSON(sc.b)
+		ca, _, errA := buildChecker(ra.toMap(nil))
+		cb, _, errB := buildChecker(rb.toMap(nil))
+		if errA != nil || errB != nil {
+			c.Fatal("directed scenario not constructible: %v %v", errA, errB)
+			return
+		}
+		root := insaneJSON.Spawn()
+		if err := root.DecodeString(sc.event); err != nil {
+			c.Fatal("directed scenario event: %v", err)
+			return
+		}
+		first, _ := realCheck(ca, root)
+		_, _ = realCheck(cb, root)
+		second, _ := realCheck(ca, root)
+		insaneJSON.Release(root)
+		st.evals++
+		st.count("directed.state_dependence_scenarios", 1)
+		st.fp("directed", sc.a, sc.b, sc.event)
+		if first != second {
+			ev := valFromJSON(sc.event)
+			violate(c, nondetSignature("doif nondeterministic: same rule and event, different decision after another rule was evaluated on the event", ra, ev),
+				fmt.Sprintf("rule %s on event %s: %v, then after evaluating %s on the same decoded event: %v", sc.a, sc.event, first, sc.b, second),
+				map[string]any{"rule": sc.a, "rule_between": sc.b, "event": sc.event, "first": first, "second": second})
+		}
+	}
+}
+
 func main() {
 	registerProbe()
 	core.RegisterChild("pipe", pipeChild)
@@ -383,20 +429,8 @@ func run(c *core.Ctx) {
 	c.Assume("a JSON null in `values` of `equal` means 'field is null or absent' (code comment + unit test equal_nil_or_empty_string); pairs whose outcome the documentation leaves open (e.g. contains \"\" on an absent field, int_val_cmp on a fraction, match_fields on null/bool/object/array) are counted as undetermined_by_docs and not judged")
 	c.Assume("ts_cmp now/file_d_start thresholds are only judged when the field timestamp is >= 12h away from them (generated >= 24h away)")
 
-	if os.Getenv("VERIF_C14_DEV_SHORT_TIMEOUT") != "" {
-		childTimeout = 60 * time.Second
-	}
 	// ---- A: do_if direct
-	nDirect := c.N(2400, 30000)
-	if os.Getenv("VERIF_C14_DEV_SKIP_DIRECT") != "" {
-		nDirect = 20
-	}
-	if path := os.Getenv("VERIF_C14_PPROF"); path != "" { // development aid
-		if f, err := os.Create(path); err == nil {
-			_ = pprof.StartCPUProfile(f)
-			defer pprof.StopCPUProfile()
-		}
-	}
+	nDirect := c.N(2400, 60000)
 	t0 := time.Now()
 	core.ParallelFor(nDirect, 16, func(i int) {
 		runDirectBatch(c, c.SubSeed("direct", i), 14, 22, 3)
@@ -405,8 +439,8 @@ func run(c *core.Ctx) {
 	t0 = time.Now()
 
 	// ---- B + C: the real pipeline
-	nMf := c.N(560, 5600)
-	nDi := c.N(160, 1600)
+	nMf := c.N(560, 11000)
+	nDi := c.N(160, 3200)
 	jobs := exampleJobs(c)
 	for i := 0; i < nMf; i++ {
 		jobs = append(jobs, makeMfJob(c.SubSeed("mf", i), fmt.Sprintf("mf-%d", i), 24, 30, 2))
